@@ -76,9 +76,19 @@ def apply_op(sd, op, names):
         def sets():
             out = []
             for vs in sd.node_attractor_sets(g("node"), compute=bool(g("compute", True))):
-                out.append(sorted(tuple(int(vert.to_dict()[v]) for v in sd.network.variables()) for vert in vs.items()))
+                pos = [(v, names.index(sd.network.get_variable_name(v))) for v in sd.network.variables()]
+                states = []
+                for vert in vs.items():
+                    d = vert.to_dict()
+                    x = [0] * len(names)
+                    for v, i in pos:
+                        x[i] = int(d[v])
+                    states.append(tuple(x))
+                out.append(sorted(states))
             return out
         r = guarded(sets)
+    elif k == "fbseeds":
+        r = guarded(lambda: [_t(names, s) for s in sd.node_attractor_seeds(g("node"), compute=True, symbolic_fallback=True)])
     elif k == "allseeds":
         def allseeds():
             return {int(i): [_t(names, s) for s in v] for i, v in sd.expanded_attractor_seeds().items()}
